@@ -103,6 +103,12 @@ HARNESS = r'''
     }
     #[kani::proof]
     #[kani::unwind(5)]
+    fn canary_block_cache_pop_some_reachable() {
+        let mut c = any_cache();
+        assert!(c.pop().is_none());       // must FAIL: the invariant admits caches holding the next block
+    }
+    #[kani::proof]
+    #[kani::unwind(5)]
     fn block_cache_insert_contract() {
         let mut c = any_cache();
         let before = c;
@@ -190,6 +196,7 @@ UNIT = dict(
     harness=HARNESS,
     harnesses=[
         dict(name="block_cache_pop_contract", obligation="BlockCache::pop::ensures#yields-exactly-next-height-once+invariant+frame", bounded="cache holds at most 3 blocks (all contents symbolic)"),
+        dict(name="canary_block_cache_pop_some_reachable", expect="fail"),
         dict(name="block_cache_insert_contract", obligation="BlockCache::insert::ensures#rejects-old-and-duplicate+invariant+frame", bounded="cache holds at most 3 blocks (all contents symbolic)"),
         dict(name="block_cache_drop_obsolete_contract", obligation="BlockCache::drop_obsolete::ensures#never-lowers-next-height+drops-exactly-older+invariant", bounded="cache holds at most 3 blocks (all contents symbolic)"),
         dict(name="firm_execution_decision", obligation="should_execute_firm_block::ensures#firm-executes-iff-not-yet-soft-executed"),
